@@ -52,8 +52,15 @@ m = {
            'baseline_off_cmd': 'cd /repo && /venv/bin/python -m pytest -ra -q -p no:cacheprovider --timeout=900 --continue-on-collection-errors',
            'source_commits': [], 'add_only': True},
  'engines': [
-   {'name': 'world', 'path': 'simv/world.py', 'serves_properties': sorted(k for k, v in claimed.items() if v[0] == 'world'),
+   {'name': 'world', 'path': 'simv/world.py', 'serves_properties': sorted(k for k, v in claimed.items() if 'world' in v[0]),
     'kind_free_text': 'real TransferManager + real stdlib threading/futures source on a simulated _thread, against SimS3/SimFS, one PRNG decides every interleaving and fault'},
+   {'name': 'sem', 'path': 'simv/focus_sem.py', 'serves_properties': ['C12'], 'kind_free_text': 'focused concurrent programs on the real semaphores + linearizability check'},
+   {'name': 'coord', 'path': 'simv/focus_coord.py', 'serves_properties': ['C17'], 'kind_free_text': 'focused concurrent programs on the real TransferCoordinator/TransferFuture + linearizability check'},
+   {'name': 'defer', 'path': 'simv/focus_defer.py', 'serves_properties': ['C16'], 'kind_free_text': 'seeded delivery histories into the real DeferQueue/non-seekable output manager'},
+   {'name': 'bw', 'path': 'simv/focus_bw.py', 'serves_properties': ['C13'], 'kind_free_text': 'virtual-time simulation of the real leaky-bucket bandwidth limiter'},
+   {'name': 'pp', 'path': 'simv/ppworld.py', 'serves_properties': ['C19', 'C02', 'C06'], 'kind_free_text': 'in-process replay of the process-pool downloader protocol'},
+   {'name': 'crt', 'path': 'simv/crtworld.py', 'serves_properties': ['C20'], 'kind_free_text': 'real crt.py against a stub awscrt (SimCRT)'},
+   {'name': 'kernel', 'path': 'simv/kernel.py', 'serves_properties': sorted(claimed), 'kind_free_text': 'deterministic scheduler: baton-passing real threads, SimLock, virtual time, seeded choosers, replay'},
  ],
  'checks': checks,
  'notes': 'exit 2 = harness error (never a verdict). Known findings: known_findings.json. Replays of confirmed defects: findings/.',
